@@ -459,6 +459,74 @@ theorem svgDendrogram_ok {ν : Nums} {a : DendroArgs} {svg : List Piece} (h : sv
   simp only [Except.ok.injEq] at h
   exact ⟨cut, index, text, paths, hcut, hindex, by simpa using hne, htext, hpaths, h.symm⟩
 
+/-- what a successful `visualize_graph` went through -/
+theorem visualizeGraph_ok {ν : Nums} {a : GraphArgs} {d : Drawing} (h : visualizeGraph ν a = .ok d) :
+    ∃ nodeColors pos edges nodes text,
+      finalPos a = .ok pos ∧ graphEdgeParts ν a pos = .ok edges ∧
+      graphNodes ν (a.nodeOrder.getD (List.range (graphN a))) pos.length a.probs nodeColors = .ok nodes ∧
+      namesText ν 0 (graphN a) a.names a.namePos = .ok text ∧
+      writeFile a.filename (svgDoc ν false true (edges.1.flatMap svgMarker ++ (edges.2 ++ (nodes ++ text)))) = .ok d := by
+  unfold visualizeGraph at h
+  simp only [bind, Except.bind, pure, Except.pure] at h
+  split at h
+  · simp at h
+  split at h
+  · simp at h
+  rename_i nodeColors hcolors
+  split at h
+  · simp at h
+  rename_i pos hpos
+  split at h
+  · simp at h
+  rename_i edges hedges
+  split at h
+  · simp at h
+  rename_i nodes hnodes
+  split at h
+  · simp at h
+  rename_i text htext
+  exact ⟨nodeColors, pos, edges, nodes, text, hpos, hedges, hnodes, htext, h⟩
+
+/-- what a successful `visualize_bigraph` went through -/
+theorem visualizeBigraph_ok {ν : Nums} {a : BigraphArgs} {d : Drawing} (h : visualizeBigraph ν a = .ok d) :
+    ∃ colorsRow colorsCol edges nodesRow nodesCol textRow textCol,
+      bigraphEdges ν a = .ok edges ∧ nodeLoop ν 0 a.nRow a.probsRow colorsRow = .ok nodesRow ∧
+      nodeLoop ν 1 a.nCol a.probsCol colorsCol = .ok nodesCol ∧
+      namesText ν 0 a.nRow a.namesRow .left = .ok textRow ∧ namesText ν 1 a.nCol a.namesCol .right = .ok textCol ∧
+      writeFile a.filename (svgDoc ν true true (edges ++ (nodesRow ++ (nodesCol ++ (textRow ++ textCol))))) = .ok d := by
+  unfold visualizeBigraph at h
+  simp only [bind, Except.bind, pure, Except.pure] at h
+  split at h
+  · simp at h
+  rename_i colorsRow hrow
+  split at h
+  · simp at h
+  rename_i colorsCol hcol
+  split at h
+  · simp at h
+  split at h
+  · simp at h
+  split at h
+  · simp at h
+  split at h
+  · simp at h
+  split at h
+  · simp at h
+  rename_i edges hedges
+  split at h
+  · simp at h
+  rename_i nodesRow hnr
+  split at h
+  · simp at h
+  rename_i nodesCol hnc
+  split at h
+  · simp at h
+  rename_i textRow htr
+  split at h
+  · simp at h
+  rename_i textCol htc
+  exact ⟨colorsRow, colorsCol, edges, nodesRow, nodesCol, textRow, textCol, hedges, hnr, hnc, htr, htc, h⟩
+
 /-! ### the document -/
 
 theorem writeFile_svg {fn : Option PyStr} {doc : List Piece} {d : Drawing} (h : writeFile fn doc = .ok d) :
